@@ -1,7 +1,8 @@
 """(F) Verus contract on `execute_fsm_pipe_impl` (src/interpreter/src/state_machines.rs), the whole body, extracted on every run,
 onto contracts/C17/fsmmodel.rs.  Mechanical rewrites (anything else is a lost anchor):
   S1  every `trace_println!( .. );` statement is removed (tracing only)
-  S2  `for (i, x) in xs.iter().enumerate() {` -> `for i in 0..xs.len() { let x = &xs[i];`   (xs = fsm.arms, guards)
+  S2  `for (i, x) in xs.iter().enumerate() {` -> `for i in 0..xs.len() { let x = &xs[i];`   (xs = fsm.arms, guards; with `.rev()`:
+      the same loop over descending positions)
   S3  `continue` (Verus for-loops have none): a match arm `=> continue,` -> `=> {},` and `if c { continue; } rest` ->
       `if !(c) { rest }`, each only after checking that nothing but closing braces follows up to the end of the loop body
   S4  `return Ok(e)` -> `return Some(e)`; `return Err(..)` and the final `Err(..)` -> `None`
@@ -82,9 +83,18 @@ def fsm_body(text):
     sig, body = extract_fn(text, "execute_fsm_pipe_impl")
     b = re.sub(r"//[^\n]*", "", body).replace("\r", "").strip()[1:-1]
     b = strip_macro_stmts(b, "trace_println")
-    b, n1 = re.subn(r"for\s+\((\w+),\s*(\w+)\)\s+in\s+(fsm\.arms|guards)\.iter\(\)\.enumerate\(\)\s*\{", r"for \1 in 0..\3.len() { let \2 = &\3[\1];", b)
+    rev = {}
+
+    def hdr(m):
+        i, x, xs = m.group(1), m.group(2), m.group(3)
+        if m.group(4):          # `.rev()`: the same loop over descending positions (the contract stays that of the forward loop)
+            rev[i] = "(%s.len() - 1 - r_%s)" % (xs, i)
+            return "for r_%s in 0..%s.len() { let %s = %s.len() - 1 - r_%s; let %s = &%s[%s];" % (i, xs, i, xs, i, x, xs, i)
+        return "for %s in 0..%s.len() { let %s = &%s[%s];" % (i, xs, x, xs, i)
+    b, n1 = re.subn(r"for\s+\((\w+),\s*(\w+)\)\s+in\s+(fsm\.arms|guards)\.iter\(\)\.enumerate\(\)(\.rev\(\))?\s*\{", hdr, b)
     if n1 != 2:
         raise AnchorLost("execute_fsm_pipe_impl: expected the loops over fsm.arms and over guards")
+    fsm_body.rev = rev
     b = continue_to_guard(b)
     b = re.sub(r"\breturn\s+Ok\s*\(", "return Some(", b)
     b = err_to_none(b)
@@ -117,7 +127,11 @@ def fsm_fn(text):
     n = len(vlib.find_all_code(b, r"\bfor\b"))
     if n != len(LOOPS):
         raise AnchorLost("execute_fsm_pipe_impl: %d loops, the contract was written for %d" % (n, len(LOOPS)))
-    b = vmat.inject(b, LOOPS)
+    loops = list(LOOPS)
+    for k, var in ((1, "arm_idx"), (2, "guard_idx")):
+        if var in fsm_body.rev:      # head-of-loop clauses cannot name the position variable of a reversed loop
+            loops[k] = (re.sub(r"\b%s\b" % var, fsm_body.rev[var], loops[k][0]),) + tuple(loops[k][1:])
+    b = vmat.inject(b, loops)
     return ("fn execute_fsm_pipe_impl(fsm: &FsmImplementation, state: &mut Value, call_env: &mut Environment, p: &Interpreter) -> (res: Option<Value>)\n"
             "  ensures res == %s,\n{\n" % R0 + b + "\n}\n")
 
@@ -125,3 +139,73 @@ def fsm_fn(text):
 def unit_text():
     text = vlib.read_repo(PATH)
     return vlib.verus_file([_model(), fsm_fn(text), vlib.verus_canary("canary_fsm", "x: u64", [])])
+
+
+# ---------------------------------------------------------------------------------------------------------------------
+def _apply_model():
+    import os
+    return open(os.path.join(os.path.dirname(os.path.dirname(os.path.abspath(__file__))), "contracts", "C17", "applymodel.rs")).read()
+
+
+T = "transitions@"
+AP0 = "at_spec(%s, 0, *old(state), *old(env), old(p).log@)" % T
+AP_LOOPS = [
+    ("    invariant *env == *old(env), at_spec(%s, t_ as int, *state, *env, p.log@) == %s," % (T, AP0), ""),
+    ("    invariant *env == *old(env), t_ < %s.len(), *transition == %s[t_ as int], *transition == Transition::CodeBlock(*code), *state == s_in,\n"
+     "      at_spec(%s, t_ as int, s_in, *env, w_in) == %s, code_spec(code@, c_ as int, p.log@) == code_spec(code@, 0, w_in)," % (T, T, T, AP0),
+     "", "let ghost w_in = p.log@; let ghost s_in = *state;"),
+]
+
+
+def apply_fn(text):
+    """`apply_transitions`, whole body: `for transition in transitions {` -> `for t_ in 0..transitions.len() { let transition = &transitions[t_];`,
+    `for (line, _) in code {` -> `for c_ in 0..code.len() { let line = &code[c_].0;`, `Ok(e)` -> `Some(e)`; the slice parameter is a `&Vec`;
+    `p: &Interpreter` is `&mut Interpreter` carrying the ghost log of evaluator calls."""
+    sig, body = extract_fn(text, "apply_transitions")
+    b = re.sub(r"//[^\n]*", "", body).replace("\r", "").strip()[1:-1]
+    b = strip_macro_stmts(b, "trace_println")
+    b, n1 = re.subn(r"for\s+(\w+)\s+in\s+transitions\s*\{", r"for t_ in 0..transitions.len() { let \1 = &transitions[t_];", b)
+    b, n2 = re.subn(r"for\s+\((\w+),\s*_\)\s+in\s+code\s*\{", r"for c_ in 0..code.len() { let \1 = &code[c_].0;", b)
+    if (n1, n2) != (1, 1):
+        raise AnchorLost("apply_transitions: expected one loop over the transitions and one over the lines of a code block")
+    b = re.sub(r"\bOk\s*\(", "Some(", b)
+    b = err_to_none(b)
+    if re.search(r"\b(Ok|Err|MechError)\b", b):
+        raise AnchorLost("apply_transitions: statements outside the transcription rules")
+    b = vmat.inject(b, AP_LOOPS)
+    return ("fn apply_transitions(transitions: &Vec<Transition>, state: &mut Value, env: &mut Environment, p: &mut Interpreter) -> (res: Option<Option<Value>>)\n"
+            "  ensures res == %s.res, *final(state) == %s.state, final(p).log@ == %s.log, *final(env) == *old(env),\n{\n" % (AP0, AP0, AP0) + b + "\n}\n")
+
+
+VT_MODEL = """
+pub struct Pattern { pub id: u64 }
+pub struct Name { pub id: u64 }
+pub enum Transition { Async(Pattern), CodeBlock(u64), Next(Pattern), Output(Pattern), Statement(u64) }
+pub struct FsmImplementation { pub id: u64 }
+pub struct FsmPipe { pub id: u64 }
+pub struct NameSet { pub id: u64 }
+pub uninterp spec fn snp(pattern: Pattern) -> Option<Name>;          // state_name_from_pattern
+pub uninterp spec fn has(names: NameSet, n: Name) -> bool;           // HashSet<String>::contains
+#[verifier::external_body]
+pub fn state_name_from_pattern(pattern: &Pattern) -> (o: Option<Name>) ensures o == snp(*pattern), { unimplemented!() }
+impl NameSet {
+  #[verifier::external_body]
+  pub fn contains(&self, n: &Name) -> (b: bool) ensures b == has(*self, *n), { unimplemented!() }
+}
+// the state a transition moves to, if it names one
+pub open spec fn target_of(t: Transition) -> Option<Name> {
+  match t { Transition::Next(p) => snp(p), Transition::Async(p) => snp(p), _ => None }
+}
+"""
+
+
+def target_fn(text):
+    """`validate_transition_target_state`, whole body: `return Err(..)` -> `return None`, `Ok(())` -> `Some(())`; `HashSet<String>` is an opaque set."""
+    sig, body = extract_fn(text, "validate_transition_target_state")
+    b = re.sub(r"//[^\n]*", "", body).replace("\r", "").strip()[1:-1]
+    b = re.sub(r"\bOk\s*\(", "Some(", b)
+    b = err_to_none(b)
+    if re.search(r"\b(Ok|Err|MechError)\b", b):
+        raise AnchorLost("validate_transition_target_state: statements outside the transcription rules")
+    return ("fn validate_transition_target_state(transition: &Transition, fsm: &FsmImplementation, state_names: &NameSet, fsm_pipe: &FsmPipe) -> (res: Option<()>)\n"
+            "  ensures res.is_some() <==> (target_of(*transition) is None || has(*state_names, target_of(*transition).unwrap())),\n{\n" + b + "\n}\n")
